@@ -409,7 +409,7 @@ pub fn all() -> Vec<Scenario> {
     pw17.app.vis = 2;
     v.push(Scenario {
         id: "F17",
-        props: vec!["C01", "C02"],
+        props: vec!["C01"],
         trace: Trace {
             profile: pw17,
             steps: cat(vec![
